@@ -351,17 +351,29 @@ pub fn eval_history(
                 let has_targets = !c.req.is_empty();
                 // model effect of --clean before the run
                 if cleaning {
+                    // a clean that ended with an error (injected I/O error while deleting) may
+                    // have removed only part of the recorded state: what survived is still a
+                    // valid record
+                    let partial = r.code != 0 && r.procs.iter().all(|p| p.kind == "cmd");
+                    let cleaned = |old: Option<&Rec>| -> Rec {
+                        match (partial, old) {
+                            (true, Some(Rec::Some(x))) | (true, Some(Rec::Maybe(x))) => Rec::Maybe(x.clone()),
+                            _ => Rec::None,
+                        }
+                    };
                     if has_targets {
                         for t in &c.clo {
                             if model.records.contains_key(t) {
-                                model.records.insert(t.clone(), Rec::None);
+                                let n = cleaned(model.records.get(t));
+                                model.records.insert(t.clone(), n);
                             }
                         }
                     } else {
                         let loaded = gen::loaded_projects(sc, inv.entry);
                         for t in &builds {
                             if loaded.contains(&t.0) {
-                                model.records.insert(t.clone(), Rec::None);
+                                let n = cleaned(model.records.get(t));
+                                model.records.insert(t.clone(), n);
                             }
                         }
                     }
